@@ -12,12 +12,13 @@ var sizeGen = rapid.SampledFrom([]int{0, 1, 20, 100, 300})
 
 func genCfg(t *rapid.T) sim.Config {
 	return sim.Config{
-		Soft:      rapid.Bool().Draw(t, "soft"),
-		SplitSize: rapid.SampledFrom([]int{0, 5, 64, 5, 64, -1}).Draw(t, "split"),
-		WriterBuf: rapid.SampledFrom([]int{0, 1, 40, 1}).Draw(t, "wbuf"),
-		AppendEnc: rapid.IntRange(0, 3).Draw(t, "appendenc") == 0,
-		RawAPI:    rapid.IntRange(0, 4).Draw(t, "rawapi") == 0,
-		Stats:     rapid.IntRange(0, 3).Draw(t, "stats") == 0,
+		Soft:         rapid.Bool().Draw(t, "soft"),
+		SplitSize:    rapid.SampledFrom([]int{0, 5, 64, 5, 64, -1}).Draw(t, "split"),
+		WriterBuf:    rapid.SampledFrom([]int{0, 1, 40, 1}).Draw(t, "wbuf"),
+		AppendEnc:    rapid.IntRange(0, 3).Draw(t, "appendenc") == 0,
+		RawAPI:       rapid.IntRange(0, 4).Draw(t, "rawapi") == 0,
+		Stats:        rapid.IntRange(0, 3).Draw(t, "stats") == 0,
+		NoInactivity: rapid.IntRange(0, 3).Draw(t, "noinactivity") == 0,
 		// with ManualFlush what an application writes stays in the writer until it flushes or receives
 		ManualFlush: rapid.IntRange(0, 5).Draw(t, "manualflush") == 0,
 	}
